@@ -171,4 +171,158 @@ Section Bar.
     - simpl in Hw, Hz. simpl. apply IHt; assumption.
     - simpl in Hw, Hz. simpl. apply IHt; assumption.
   Qed.
+
+  (* ---------- Barendregt implies the capture guard ---------- *)
+  Lemma cnt_In : forall l x, In x l -> (1 <= cnt l x)%nat.
+  Proof. intros l x H. unfold cnt. apply (proj1 (count_occ_In string_dec l x)) in H. lia. Qed.
+  Lemma disj_intro : forall a b, (forall x, In x a -> In x b -> False) -> disj a b = true.
+  Proof.
+    intros a b H. unfold disj, inter_nonempty. apply negb_true_iff.
+    destruct (existsb (fun x => mem x b) a) eqn:E; [|reflexivity].
+    apply existsb_exists in E. destruct E as [x [Ha Hb]]. apply mem_In in Hb. exfalso. exact (H x Ha Hb).
+  Qed.
+  Lemma cnt_flat_map_ge : forall X (f : X -> list string) l c x, In c l -> (cnt (f c) x <= cnt (flat_map f l) x)%nat.
+  Proof.
+    intros X f l c x H. induction l as [|y r IH]; [contradiction|]. simpl. rewrite cnt_app.
+    destruct H as [H|H]; [subst; lia | specialize (IH H); lia].
+  Qed.
+
+  Definition scope_in (G : list cbinding) (acc : list string) : Prop :=
+    forall y, In y (gnames G) -> exists x, y = new_id x /\ In x acc.
+
+  Lemma bar_nocap : forall t G acc, frag p t = true -> ws G t = true ->
+    (forall x, cnt (bnd t) x + cnt acc x <= 1)%nat -> scope_in G acc -> nocap t = true.
+  Proof.
+    induction t using fterm_ind'; intros G acc Hf Hw Hc Hs; simpl in Hf; try discriminate; try reflexivity.
+    - apply andb_prop in Hf. destruct Hf as [Hf1 Hf2]. simpl in Hw. apply andb_prop in Hw. destruct Hw as [Hw1 Hw2].
+      simpl in Hc. simpl. apply andb_true_iff. split.
+      + apply (IHt1 G acc Hf1 Hw1); [|exact Hs]. intros x. specialize (Hc x). rewrite cnt_app in Hc. lia.
+      + apply (IHt2 G acc Hf2 Hw2); [|exact Hs]. intros x. specialize (Hc x). rewrite cnt_app in Hc. lia.
+    - apply andb_prop in Hf. destruct Hf as [Hf Hf3]. apply andb_prop in Hf. destruct Hf as [Hf Hf2].
+      apply andb_prop in Hf. destruct Hf as [Hf1 Hfb].
+      simpl in Hw. apply andb_prop in Hw. destruct Hw as [Hw Hw3]. apply andb_prop in Hw. destruct Hw as [Hw Hw2].
+      apply andb_prop in Hw. destruct Hw as [Hw1 Hwb].
+      simpl in Hc. simpl. rewrite !andb_true_iff. repeat split.
+      + apply (IHt1 G acc Hf1 Hw1); [|exact Hs]. intros x. specialize (Hc x). rewrite !cnt_app in Hc. lia.
+      + destruct b as [b'|]; [|reflexivity]. simpl in H. apply (H G acc Hfb Hwb); [|exact Hs].
+        intros x. specialize (Hc x). rewrite !cnt_app in Hc. lia.
+      + apply (IHt2 G acc Hf2 Hw2); [|exact Hs]. intros x. specialize (Hc x). rewrite !cnt_app in Hc. lia.
+      + apply (IHt3 G acc Hf3 Hw3); [|exact Hs]. intros x. specialize (Hc x). rewrite !cnt_app in Hc. lia.
+    - apply andb_prop in Hf. destruct Hf as [Hf1 Hf2]. simpl in Hw. apply andb_prop in Hw. destruct Hw as [Hw1 Hw2].
+      simpl in Hc. simpl. apply andb_true_iff. split.
+      + apply (IHt1 G acc Hf1 Hw1); [|exact Hs]. intros x. specialize (Hc x). rewrite cnt_app in Hc. lia.
+      + apply (IHt2 G acc Hf2 Hw2); [|exact Hs]. intros x. specialize (Hc x). rewrite cnt_app in Hc. lia.
+    - (* let *)
+      apply andb_prop in Hf. destruct Hf as [Hf Hf2]. apply andb_prop in Hf. destruct Hf as [_ Hf1].
+      simpl in Hw. apply andb_prop in Hw. destruct Hw as [Hw1 Hw2].
+      simpl in Hc. simpl. rewrite !andb_true_iff. repeat split.
+      + apply disj_intro. intros x Hx1 Hx2. specialize (Hc x). rewrite cnt_cons, cnt_app in Hc.
+        pose proof (cnt_In _ _ Hx1) as C1. destruct Hx2 as [Hx2|Hx2].
+        * subst x. destruct (string_dec v v); [lia | congruence].
+        * destruct (nm_scope t2 _ x Hf2 Hw2 Hx2) as [Hb|Hg].
+          -- pose proof (cnt_In _ _ Hb). lia.
+          -- simpl in Hg. destruct Hg as [Hg|Hg].
+             ++ apply new_id_inj in Hg. subst x. destruct (string_dec v v); [lia | congruence].
+             ++ destruct (Hs _ Hg) as [y [Ey Hy]]. apply new_id_inj in Ey. subst y. pose proof (cnt_In _ _ Hy). lia.
+      + apply (IHt1 G acc Hf1 Hw1); [|exact Hs]. intros x. specialize (Hc x). rewrite cnt_cons, cnt_app in Hc. lia.
+      + apply (IHt2 _ (v :: acc) Hf2 Hw2).
+        * intros x. specialize (Hc x). rewrite cnt_cons, cnt_app in Hc. rewrite cnt_cons. lia.
+        * intros y Hy. simpl in Hy. destruct Hy as [Hy|Hy]; [exists v; split; [symmetry; exact Hy | left; reflexivity]|].
+          destruct (Hs _ Hy) as [x [Ex Hx]]. exists x. split; [exact Ex | right; exact Hx].
+    - (* call *)
+      apply andb_prop in Hf. destruct Hf as [_ Hf]. simpl in Hw, Hc. simpl.
+      induction H as [|y l Hy Hl IH]; [reflexivity|].
+      simpl in Hf, Hw, Hc. apply andb_prop in Hf. destruct Hf as [Hfy Hfl]. apply andb_prop in Hw. destruct Hw as [Hwy Hwl].
+      simpl. apply andb_true_iff. split.
+      + destruct y; try (apply andb_prop in Hfy; destruct Hfy as [Hfy _]; apply (Hy G acc Hfy Hwy); [|exact Hs];
+                         intros x1; specialize (Hc x1); rewrite cnt_app in Hc; lia).
+        reflexivity.
+      + apply IH; [exact Hfl | exact Hwl|]. intros x1. specialize (Hc x1). rewrite cnt_app in Hc. lia.
+    - (* ctor *)
+      apply andb_prop in Hf. destruct Hf as [_ Hf]. simpl in Hw, Hc. simpl.
+      induction H as [|y l Hy Hl IH]; [reflexivity|].
+      simpl in Hf, Hw, Hc. apply andb_prop in Hf. destruct Hf as [Hfy Hfl]. apply andb_prop in Hw. destruct Hw as [Hwy Hwl].
+      simpl. apply andb_true_iff. split.
+      + destruct y; try (apply andb_prop in Hfy; destruct Hfy as [Hfy _]; apply (Hy G acc Hfy Hwy); [|exact Hs];
+                         intros x1; specialize (Hc x1); rewrite cnt_app in Hc; lia).
+        reflexivity.
+      + apply IH; [exact Hfl | exact Hwl|]. intros x1. specialize (Hc x1). rewrite cnt_app in Hc. lia.
+    - (* case *)
+      apply andb_prop in Hf. destruct Hf as [Hf Hfc]. apply andb_prop in Hf. destruct Hf as [Hfs _].
+      simpl in Hw. apply andb_prop in Hw. destruct Hw as [Hws Hwc].
+      simpl in Hc. simpl. rewrite !andb_true_iff. repeat split.
+      + apply disj_intro. intros x Hx1 Hx2. specialize (Hc x). rewrite cnt_app in Hc.
+        pose proof (cnt_In _ _ Hx1) as C1. apply in_flat_map in Hx2. destruct Hx2 as [c0 [Hc0 Hx2]].
+        match type of Hc with context [cnt (flat_map ?f cls) x] => pose proof (cnt_flat_map_ge _ f cls c0 x Hc0) as C2 end.
+        rewrite forallb_forall in Hfc, Hwc. specialize (Hfc _ Hc0). specialize (Hwc _ Hc0).
+        destruct c0 as [pl x0 names ctx body]. simpl in Hx2, Hfc, Hwc. cbv beta iota in C2. rewrite cnt_app in C2.
+        apply andb_prop in Hfc. destruct Hfc as [_ Hfb].
+        apply in_app_or in Hx2. destruct Hx2 as [Hx2|Hx2].
+        * pose proof (cnt_In _ _ Hx2). unfold fname in *. lia.
+        * destruct (nm_scope body _ x Hfb Hwc Hx2) as [Hb|Hg].
+          -- pose proof (cnt_In _ _ Hb). unfold fname in *. lia.
+          -- unfold gnames in Hg. rewrite map_app, in_app_iff in Hg. destruct Hg as [Hg|Hg].
+             ++ unfold compile_ctx in Hg. rewrite map_map in Hg. apply in_map_iff in Hg. destruct Hg as [b0 [E Hb0]].
+                simpl in E. apply new_id_inj in E. subst x.
+                assert (Hin : In (fbvar b0) (fvars ctx)) by (unfold fvars; apply in_map; exact Hb0).
+                pose proof (cnt_In _ _ Hin). unfold fname in *. lia.
+             ++ destruct (Hs _ Hg) as [y [Ey Hy]]. apply new_id_inj in Ey. subst y. pose proof (cnt_In _ _ Hy). unfold fname in *. lia.
+      + apply (IHt G acc Hfs Hws); [|exact Hs]. intros x. specialize (Hc x). rewrite cnt_app in Hc. lia.
+      + apply forallb_forall. intros c0 Hc0. rewrite Forall_forall in H. specialize (H c0 Hc0).
+        rewrite forallb_forall in Hfc, Hwc. specialize (Hfc _ Hc0). specialize (Hwc _ Hc0).
+        destruct c0 as [pl x0 names ctx body]. simpl in H, Hfc, Hwc.
+        apply andb_prop in Hfc. destruct Hfc as [_ Hfb].
+        apply (H _ (fvars ctx ++ acc) Hfb Hwc).
+        * intros x. specialize (Hc x). rewrite cnt_app in Hc.
+          match type of Hc with context [cnt (flat_map ?f cls) x] => pose proof (cnt_flat_map_ge _ f cls _ x Hc0) as C2 end.
+          cbv beta iota in C2. rewrite cnt_app in C2. rewrite cnt_app. unfold fname in *. lia.
+        * intros y Hy. unfold gnames in Hy. rewrite map_app, in_app_iff in Hy. destruct Hy as [Hy|Hy].
+          -- unfold compile_ctx in Hy. rewrite map_map in Hy. apply in_map_iff in Hy. destruct Hy as [b0 [E Hb0]].
+             exists (fbvar b0). split; [symmetry; exact E|]. apply in_or_app. left. unfold fvars. apply in_map. exact Hb0.
+          -- destruct (Hs _ Hy) as [x [Ex Hx]]. exists x. split; [exact Ex | apply in_or_app; right; exact Hx].
+    - (* label *)
+      apply andb_prop in Hf. destruct Hf as [_ Hf]. simpl in Hw. destruct ty as [ty0|]; [|discriminate].
+      simpl in Hc. simpl. apply andb_true_iff. split.
+      + apply negb_true_iff. apply mem_false_not_In. intros Hin. specialize (Hc l). rewrite cnt_cons in Hc.
+        pose proof (cnt_In _ _ Hin). destruct (string_dec l l); [lia | congruence].
+      + apply (IHt _ (l :: acc) Hf Hw).
+        * intros x. specialize (Hc x). rewrite cnt_cons in Hc. rewrite cnt_cons. lia.
+        * intros y Hy. simpl in Hy. destruct Hy as [Hy|Hy]; [exists l; split; [symmetry; exact Hy | left; reflexivity]|].
+          destruct (Hs _ Hy) as [x [Ex Hx]]. exists x. split; [exact Ex | right; exact Hx].
+    - (* goto *)
+      simpl in Hw. apply andb_prop in Hw. destruct Hw as [Hw1 Hw2]. simpl in Hc. simpl. apply andb_true_iff. split.
+      + apply negb_true_iff. apply mem_false_not_In. intros Hin.
+        destruct (Hs _ (var_ok_scope _ _ _ _ Hw1)) as [y [Ey Hy]]. apply new_id_inj in Ey. subst y.
+        specialize (Hc l). pose proof (cnt_In _ _ Hin). pose proof (cnt_In _ _ Hy). lia.
+      + apply (IHt G acc Hf Hw2 Hc Hs).
+    - simpl in Hw, Hc. simpl. apply (IHt G acc Hf Hw Hc Hs).
+    - simpl in Hw, Hc. simpl. apply (IHt G acc Hf Hw Hc Hs).
+  Qed.
+
+  (* the official guard: for a well-scoped definition of the fragment, barendregt_def implies nocap *)
+  Theorem barendregt_def_nocap : forall d,
+    frag p (fdbody d) = true -> ws (compile_ctx (fdctx d)) (fdbody d) = true -> barendregt_def d = true ->
+    nocap (fdbody d) = true.
+  Proof.
+    intros d Hf Hw Hb. unfold barendregt_def in Hb. apply nodup_str_NoDup in Hb.
+    apply (bar_nocap (fdbody d) (compile_ctx (fdctx d)) (fvars (fdctx d)) Hf Hw).
+    - intros x. rewrite <- (used_binders_cnt (fdbody d) (fvars (fdctx d)) x Hf).
+      unfold cnt. apply (proj1 (NoDup_count_occ string_dec _) Hb).
+    - intros y Hy. unfold gnames, compile_ctx in Hy. rewrite map_map in Hy. apply in_map_iff in Hy.
+      destruct Hy as [b0 [E Hb0]]. exists (fbvar b0). split; [symmetry; exact E | unfold fvars; apply in_map; exact Hb0].
+  Qed.
 End Bar.
+
+(* the program guard in terms of the Barendregt condition *)
+Definition def_guard_b (p : fcprog) (d : fdef) : bool :=
+  frag p (fdbody d) && ws (compile_ctx (fdctx d)) (fdbody d)
+  && (if String.eqb (fdname d) "main" then data_ty p (fterm_type (fdbody d)) else true).
+Definition frag_prog (p : fcprog) : bool := forallb (def_guard_b p) (fcpdefs p).
+
+Theorem barendregt_prog_guard : forall p, frag_prog p = true -> barendregt p = true -> prog_guard p = true.
+Proof.
+  intros p Hf Hb. unfold prog_guard, frag_prog, barendregt in *. rewrite forallb_forall in *.
+  intros d Hd. specialize (Hf d Hd). specialize (Hb d Hd). unfold def_guard_b in Hf. unfold def_guard.
+  apply andb_prop in Hf. destruct Hf as [Hf Hm]. apply andb_prop in Hf. destruct Hf as [Hfr Hws].
+  rewrite Hfr, Hws, (barendregt_def_nocap p d Hfr Hws Hb), Hm. reflexivity.
+Qed.
